@@ -231,7 +231,7 @@ func malformedCodecShapes(c *chk.Ctx) {
 		}
 		rp := c.WriteReplay(map[string]any{"property": c.ID, "part": "custom decoders", "fv": cases[m.ci].ex.Fv, "validBody": string(m.valid),
 			"body": string(m.body), "mutation": m.how, "observed": evs, "rejected": rej[id], "seed": c.Seed})
-		c.Violation(rp, fmt.Sprintf("%v: body %s (%s) rejected by Trace_Wire at: %s", cases[m.ci].ex.Fv, firstN(string(m.body), 200), m.how, firstN(rej[id], 300)))
+		c.Violation(rp, fmt.Sprintf("%v: body %q (%s) rejected by Trace_Wire at: %s", cases[m.ci].ex.Fv, firstN(string(m.body), 200), m.how, firstN(rej[id], 300)))
 	}
 }
 
@@ -307,6 +307,10 @@ func undecodable(valid []byte) []mutBody {
 		}
 	}
 	walk(doc, "$", 1)
+	// a complete document followed by more bytes is not a JSON text
+	for _, tail := range []string{"xyz", "]", "}", string(valid), " {\"trunc", ",", "\x00"} {
+		out = append(out, mutBody{body: append(append([]byte{}, valid...), tail...), how: "trailing bytes " + fmt.Sprintf("%q", firstN(tail, 12))})
+	}
 	// truncations (a proper prefix of a JSON object / array text is never a JSON text)
 	if len(valid) > 2 {
 		for _, cut := range []int{len(valid) - 1, len(valid) / 2, 1} {
